@@ -502,11 +502,38 @@ func usersetAliasesTargetRelation(ts *typesystem.TypeSystem, targetObjectType, t
 		if ref.GetRelation() == userRelation {
 			return false
 		}
-		if resolved, err := ts.ResolveComputedRelation(ref.GetType(), ref.GetRelation()); err == nil && resolved == userRelation {
+		if computedChainReaches(ts, ref.GetType(), ref.GetRelation(), userRelation) {
 			foundAlias = true
 		}
 	}
 	return foundAlias
+}
+
+// computedChainReaches reports whether following computed_userset rewrites
+// from objectType#relation arrives at target. The chain does not have to end
+// in a directly assignable relation: v1 grants the request as soon as a
+// relation on the chain equals the user's relation, whatever that relation's
+// own rewrite is.
+func computedChainReaches(ts *typesystem.TypeSystem, objectType, relation, target string) bool {
+	visited := map[string]struct{}{}
+	for {
+		if _, seen := visited[relation]; seen {
+			return false
+		}
+		visited[relation] = struct{}{}
+		rel, err := ts.GetRelation(objectType, relation)
+		if err != nil {
+			return false
+		}
+		computed, ok := rel.GetRewrite().GetUserset().(*openfgav1.Userset_ComputedUserset)
+		if !ok {
+			return false
+		}
+		relation = computed.ComputedUserset.GetRelation()
+		if relation == target {
+			return true
+		}
+	}
 }
 
 // rewriteContainsDifference reports whether the rewrite tree contains any
